@@ -124,7 +124,7 @@ def harnesses(ctx) -> List[H]:
             pre = list(hpre) + [vpre.format(f"v{i}") for i in range(1, k + 1)]
             if k == 2:
                 pre = [x.replace("<= 3", "<= 2") for x in pre]
-                if name.startswith(("declared_matches_pattern", "declared_allof", "nested_bool", "shared_instances")):
+                if name.startswith(("declared_matches_pattern", "declared_allof", "nested_bool", "shared_instances", "base_and_child")):
                     pre.append("len(v1) <= 1" if "Union" not in vt else "not isinstance(v1, (dict, list)) or len(v1) <= 1")
                 pre.append("len(v2) <= 1" if "Union" not in vt else "not isinstance(v2, dict) or len(v2) <= 1")
             vals = ", ".join(f"v{i}" for i in range(1, k + 1))
